@@ -77,9 +77,11 @@ type Result struct {
 	Sample     []string          `json:"sample,omitempty"`
 	PassSeq    []string          `json:"passseq,omitempty"`
 	SitePass   map[string]int    `json:"sitepass,omitempty"`
+	EvPass     map[string]int    `json:"evpass,omitempty"`
 	Info       map[string]string `json:"info,omitempty"`
 	SitesHit   int               `json:"sites_hit,omitempty"`
 	RtDraws    uint64            `json:"rt_draws,omitempty"`
+	SpecEcho   *Spec             `json:"spec,omitempty"`
 
 	// driver side
 	spec   *Spec
@@ -208,7 +210,12 @@ func (b *build) plan(prop, tier string, seed uint64, stage int, prev []*Result) 
 	cmd.Env = workerEnv(fmt.Sprintf("VERIF_PLAN=%s:%s:%d:%d", prop, tier, seed, stage), "VERIF_BUDGET_S="+os.Getenv("VERIF_BUDGET_S"))
 	var in bytes.Buffer
 	for _, r := range prev {
+		if r.infra != "" {
+			continue
+		}
+		r.SpecEcho = r.spec
 		bb, _ := json.Marshal(r)
+		r.SpecEcho = nil
 		in.Write(bb)
 		in.WriteByte('\n')
 	}
